@@ -18,7 +18,7 @@ def run(check: Check) -> None:
     check.bounds.update({"layers": "<=3 layers, <=2 keys each", "structured_shapes": ch_c19.NSHAPES, "formula_ops": 2, "indices": "[-4,3] thorough / [-3,2] quick", "term_pool": "7 thorough / 3 quick"})
     check.out_of_scope += ["operation sequences longer than 2 on formulas", "layers with non-int keys", "shapes outside the 9-shape menu"]
     pct = 1500 if thorough else 100
-    fns = {f: [None] for f in ("lm_lookup", "lm_len_iter", "lm_write", "lm_delete", "lm_with_layers", "lm_layer_names", "st_map", "st_simplify", "st_update_merge")}
+    fns = {f: [None] for f in ("lm_lookup", "lm_len_iter", "lm_write", "lm_write_len", "lm_delete", "lm_with_layers", "lm_layer_names", "st_map", "st_simplify", "st_update_merge")}
     fns["sf_ops"] = ch_c19.sf_shards(-4, 3, 7) if thorough else ch_c19.sf_shards(-3, 2, 3)
     for f in fns:
         check.functions.add(f"harness.ch_c19:{f}")
@@ -32,6 +32,7 @@ def run(check: Check) -> None:
         + [ch_c19.lm_len_iter({1: 2, 3: 3}, {1: 3, 4: 5})]
         + [ch_c19.lm_write({1: 2}, {3: 4}, k, 9, k2) for k in (1, 3, 0) for k2 in (1, 3, 0, 7)]
         + [ch_c19.lm_delete({1: 2}, {3: 4}, k, 9, k2) for k in (1, 3, 0) for k2 in (1, 3, 0)]
+        + [ch_c19.lm_write_len({1: 2}, {1: 5, 3: 4}, k, 9) for k in (1, 3, 0)]
         + [ch_c19.lm_with_layers({1: 2}, {1: 4, 2: 2}, k, 9, k2, p) for k in (1, 2, 0) for k2 in (0, 1, 2) for p in (True, False)]
         + [ch_c19.lm_layer_names({1: 2}, {3: 4}, k, 0, w) for k in (1, 3, 0) for w in (True, False)]
         + [f(i, 1, 2, 3, 4) for f in (ch_c19.st_map, ch_c19.st_simplify) for i in range(ch_c19.NSHAPES)]
@@ -39,8 +40,20 @@ def run(check: Check) -> None:
         + [ch_c19.sf_ops(a, i, t, b, j, u) for a in range(3) for b in range(3) for i in range(-4, 4) for j in range(-4, 4) for t in range(3) for u in range(3)]
     )
     check.obligation("containers/native cross-validation", "ground" if grid_ok else "refuted")
-    if not grid_ok:
-        check.harness_error("a container law fails natively on the concrete validation grid")
+    if not grid_ok:  # reproduced natively by construction: report the first failing law
+        probes = [("lm_lookup", [{1: 2}, {1: 3, 4: 5}, {4: 6, 9: 9}, 4]), ("lm_len_iter", [{1: 2, 3: 3}, {1: 3, 4: 5}]), ("lm_write", [{1: 2}, {3: 4}, 1, 9, 3]),
+                  ("lm_write", [{1: 2}, {3: 4}, 3, 9, 1]), ("lm_write_len", [{1: 2}, {1: 5, 3: 4}, 1, 9]), ("lm_write_len", [{1: 2}, {1: 5, 3: 4}, 3, 9]), ("lm_delete", [{1: 2}, {3: 4}, 1, 9, 3]), ("lm_with_layers", [{1: 2}, {1: 4, 2: 2}, 1, 9, 2, True]),
+                  ("lm_with_layers", [{1: 2}, {1: 4, 2: 2}, 2, 9, 1, False]), ("lm_layer_names", [{1: 2}, {3: 4}, 3, 0, False])]
+        probes += [(f, [i, 1, 2, 3, 4]) for f in ("st_map", "st_simplify") for i in range(ch_c19.NSHAPES)] + [("st_update_merge", [i, 1, 2, 3, 4, 9]) for i in range(ch_c19.NSHAPES)]
+        probes += [("sf_ops", [a, i, t, b, j, u]) for a in range(3) for b in range(3) for i in range(-4, 4) for j in range(-4, 4) for t in range(3) for u in range(3)]
+        for fname, args in probes:
+            try:
+                okp = getattr(ch_c19, fname)(*args)
+            except Exception:
+                okp = False
+            if okp is not True:
+                check.violation(f"{fname}", f"container law {fname} fails natively for {args}", {"kind": "ch_native", "module": "ch_c19", "function": fname, "call": {"args": args, "kwargs": {}}})
+                break
     runner.run_module(check, "ch_c19", fns, pct=pct, ppt=15, group="containers",
                       keyer=lambda fname, call: f"{fname}")
     check.sample({"law": "lm_write", "inputs": "l1, l2: symbolic dict[int,int] (<=2 keys), k, v, k2: symbolic int", "verdict": "CrossHair: confirmed over all paths"})
